@@ -161,7 +161,7 @@ def judge_new_object(w, res, t, uri, file, what, hist):
     res.violate(
         "stale-or-wrong-version",
         "%s rendered %r but the file to serve is d%d%s version %d (mtime %d, clock %d)" % (what, out, file[0], uri, F["version"], F["mtime"], _st["clock"].now),
-        finding=fid, witness=what, replay_case=hist,
+        finding=fid, witness="the same URI exists in two directories, module_directory is shared: the module file written for the first directory's copy is reused for the other one" if fid else what, replay_case=hist,
     )
     return rv
 
@@ -379,6 +379,7 @@ def run_history(cfg, ops, res):
                 w.version += 1
                 w.lookup.put_string(op[1], "%s@put#%d" % (op[1], w.version))
                 new = op[1] not in w.cache
+                check_put(w, res, op[1], None, hist)
                 w.cache[op[1]] = {"obj": peek(w.lookup, op[1]), "file": None, "version": w.version, "c": _st["clock"].now}
                 if new:
                     w.touch_recency(op[1])
@@ -386,6 +387,7 @@ def run_history(cfg, ops, res):
                 w.version += 1
                 t = _st["Template"]("%s@put#%d" % (op[1], w.version))
                 w.lookup.put_template(op[1], t)
+                check_put(w, res, op[1], t, hist)
                 new = op[1] not in w.cache
                 w.cache[op[1]] = {"obj": t, "file": None, "version": w.version, "c": _st["clock"].now}
                 if new:
@@ -397,6 +399,20 @@ def run_history(cfg, ops, res):
     finally:
         w.close()
         hist.pop("ops_done", None)
+
+
+def check_put(w, res, uri, t, hist):
+    """put_string / put_template entries are served under their URI: right after the put the collection holds the
+    new template (looked at without touching recency), also when the URI was cached before"""
+    res.count("puts_checked")
+    try:
+        cur = peek(w.lookup, uri)
+        out = cur.render_unicode()
+    except Exception as e:
+        res.violate("put-not-served", "after put on %r the collection entry raised %s: %s" % (uri, type(e).__name__, e), replay_case=hist)
+        return
+    if (t is not None and cur is not t) or out != "%s@put#%d" % (uri, w.version):
+        res.violate("put-not-served", "after put #%d on %r (cached before: %s) the collection serves %r" % (w.version, uri, uri in w.cache, out), replay_case=hist)
 
 
 CONFIGS4 = [
@@ -429,13 +445,14 @@ def rand_history(r, cfg):
         elif k < 0.45:
             ops.append(("unreadable", d, u))
         elif k < 0.85:
-            ops.append(("get", u))
+            ops.append(("get", u if r.random() < 0.9 else "/put%d.html" % r.randrange(3)))
         elif k < 0.92:
             ops.append(("has", u))
         elif k < 0.96:
-            ops.append(("put_string", "/put%d.html" % r.randrange(3)))
+            # mostly fresh URIs, sometimes one that is (or may be) cached from a file
+            ops.append(("put_string", "/put%d.html" % r.randrange(3) if r.random() < 0.7 else u))
         else:
-            ops.append(("put_template", "/put%d.html" % r.randrange(3)))
+            ops.append(("put_template", "/put%d.html" % r.randrange(3) if r.random() < 0.7 else u))
     return ops
 
 
